@@ -56,14 +56,16 @@ def md_tree(rng, depth):
     out = {}
     for _ in range(rng.randint(1, 4)):
         k = rng.choice(["k", "note", "ünï", "α β", "n", "arr", "f", "sub", "type", "q" * 40, "x.y", "rate%2Fhz", "50%2F50", "%", "%25", "2024-03-01", "nodes", "edges", "shape", "0",
-                        "input_type", "output_type", "weight", "input_shape", "w_in", "start_dim"])
+                        "input_type", "output_type", "weight", "input_shape", "w_in", "start_dim", "group", "name", "value", "self", "key",
+                        "data", "dtype", "\ufeffk", "members", "attrs", "file", "parent", "id", "ref"])
         r = rng.random()
         if r < 0.2:
             out[k] = rng.choice(["", "text", "日本語", "a\nb", "same", "NIRGraph", "spikes> ", " ", "    ", " lead", "tab\t", "trail \n",
                                  "nbsp\u00a0", "caf\u0065\u0301", "\u2126 ohm",
                                  # text that LOOKS like another kind of value (dates, numbers, booleans, escapes)
                                  "2024-03-01", "20240301", "2024-03-01T12:30:00+00:00", "12:30", "1e5", "nan", "True", "None", "0x10",
-                                 "1_000", "[1, 2]", "{}", "%2F", "a%2Fb", "\\n", "b'x'"])
+                                 "1_000", "[1, 2]", "{}", "%2F", "a%2Fb", "\\n", "b'x'",
+                                 "\ufeffexported", "\ufeff", "mid\ufeffdle", "Linear", "Scale"])
         elif r < 0.35:
             out[k] = rng.choice([0, 1, -7, 2 ** 40, 2 ** 63 - 1, -2 ** 63])
         elif r < 0.5:
